@@ -103,6 +103,8 @@ fn expected_obs(c: &Content) -> Obs {
 
 struct Scenario {
     name: &'static str,
+    /// preemption bound for this scenario (None = the tier's bound)
+    bound: Option<usize>,
     /// threads: 'R' reader (two observations), 'W' committing writer, 'A' abandoning writer
     threads: &'static [char],
 }
@@ -113,19 +115,27 @@ fn main() {
     let quick = ctx.quick();
     let bound = if quick { 2 } else { 3 };
     let scenarios = [
-        Scenario { name: "reader|writer|reader", threads: &['R', 'W', 'R'] },
-        Scenario { name: "reader|writer|writer", threads: &['R', 'W', 'W'] },
-        Scenario { name: "reader|abandoning-writer|writer", threads: &['R', 'A', 'W'] },
+        Scenario { name: "reader|writer|reader", bound: None, threads: &['R', 'W', 'R'] },
+        Scenario { name: "reader|writer|writer", bound: None, threads: &['R', 'W', 'W'] },
+        Scenario { name: "reader|abandoning-writer|writer", bound: None, threads: &['R', 'A', 'W'] },
+        // thorough only: four threads at a lower bound
+        Scenario { name: "reader|writer|reader|writer", bound: Some(1), threads: &['R', 'W', 'R', 'W'] },
+        Scenario { name: "reader|writer|abandoning-writer|reader", bound: Some(1), threads: &['R', 'W', 'A', 'R'] },
     ];
     let c0 = content0();
     let mut per_scenario = Vec::new();
     let mut total_execs = 0u64;
     let mut outcomes_all: BTreeSet<String> = BTreeSet::new();
     for sc in &scenarios {
+        if quick && sc.threads.len() > 3 {
+            continue;
+        }
+        let bound = sc.bound.unwrap_or(bound);
         // legal contents a reader may be pinned to / the zone may end in
         let writers: Vec<u8> = sc.threads.iter().enumerate().filter(|(_, t)| **t == 'W').map(|(i, _)| i as u8).collect();
         let mut legal: Vec<(String, Obs)> = vec![("v0".into(), expected_obs(&c0))];
         for &k in &writers {
+            // all writers set the same names, so the last committer decides the content
             legal.push((format!("w{k}"), expected_obs(&with_writes(&c0, &[k]))));
         }
         let execs = std::sync::Arc::new(AtomicU64::new(0));
